@@ -92,6 +92,53 @@ def _num(x):
 def _isreal(x):
     return isinstance(x, (float, SReal))
 
+def _divmod_def(a, b):
+    """Definitional extension for division by a *symbolic* divisor: fresh q, r
+    with a = b*q + r and r in [0,b) (b>0) or (b,0] (b<0).  This characterises
+    Python's floor division and modulo uniquely for b != 0 and is always
+    satisfiable, so adding it to the path is conservative.  The pair is cached
+    per (a, b) so the code's `a // b` and the specification's floor(a/b) are
+    the same term."""
+    ctx = _CTX
+    if ctx is None or ctx.concrete or not ctx.ghost.get("defdiv"):
+        return None
+    key = (a.get_id(), b.get_id())
+    tab = ctx.ghost.setdefault("__divmod__", {})
+    if key not in tab:
+        k = len(tab)
+        q, r = z3.Int(f"__q{k}"), z3.Int(f"__r{k}")
+        ctx.solver.add(z3.Implies(b != 0, z3.And(
+            a == b * q + r,
+            z3.If(b > 0, z3.And(0 <= r, r < b), z3.And(b < r, r <= 0)))))
+        tab[key] = (q, r, a, b)
+    return tab[key][0], tab[key][1]
+
+def _known_sign(b):
+    """+1 / -1 if the path condition fixes the sign of the divisor term b
+    (keeps division terms free of sign case-splits), else 0."""
+    ctx = _CTX
+    if ctx is None or ctx.concrete:
+        return 0
+    tab = ctx.ghost.setdefault("__sign__", {})
+    k = (b.get_id(), len(ctx.trace), ctx.solver.num_scopes(), len(ctx.solver.assertions()))
+    k0 = b.get_id()
+    if tab.get(k0, 0) != 0:
+        return tab[k0]          # signs only become *more* determined along a path
+    ctx.solver.set("timeout", 500)
+    try:
+        r, _ = ctx._check(b <= 0)
+        if r == z3.unsat:
+            tab[k0] = 1
+            return 1
+        r, _ = ctx._check(b >= 0)
+        if r == z3.unsat:
+            tab[k0] = -1
+            return -1
+    finally:
+        ctx.solver.set("timeout", ctx.timeout_ms)
+    return 0
+
+
 def py_floordiv_t(a, b):
     """z3 term for Python's a // b given b != 0 (either sign)."""
     if z3.is_int_value(b):
@@ -99,11 +146,22 @@ def py_floordiv_t(a, b):
         if bv > 0:
             return a / b
         return (-a) / z3.IntVal(-bv)
+    d = _divmod_def(a, b)
+    if d is not None:
+        return d[0]
+    sg = _known_sign(b)
+    if sg > 0:
+        return a / b
+    if sg < 0:
+        return (-a) / (-b)
     return z3.If(b > 0, a / b, (-a) / (-b))
 
 def py_mod_t(a, b):
     if z3.is_int_value(b) and b.as_long() > 0:
         return a % b
+    d = _divmod_def(a, b)
+    if d is not None:
+        return d[1]
     return a - b * py_floordiv_t(a, b)
 
 
@@ -426,6 +484,13 @@ def mod(a, b):
         return a % b
     return mk(py_mod_t(lift(a), lift(b)))
 
+def cut(cond, label):
+    """Lemma / cut: prove `cond` on the current path (an obligation of its
+    own), then use it as an assumption for what follows."""
+    c = cur()
+    c.prove(cond, "lemma: " + label)
+    c.assume(cond)
+
 # ----------------------------------------------------------------------------
 # the path context
 
@@ -457,6 +522,7 @@ class Ctx:
         self.nchecks = 0
         self.choices_made = []    # structural choices only (for concrete replay)
         self.names = {}
+        self.backend_used = {}
 
     # -- solver plumbing
     def _check(self, *extra):
@@ -470,6 +536,37 @@ class Ctx:
         self.solver_time += time.time() - t0
         self.nchecks += 1
         return r, m
+
+    def _check_quick(self, neg):
+        """incremental solver with a short budget (it is weak on non-linear
+        integer arithmetic; a fresh solver does much better there)"""
+        self.solver.set("timeout", min(self.timeout_ms, 2000))
+        try:
+            return self._check(neg)
+        finally:
+            self.solver.set("timeout", self.timeout_ms)
+
+    def _check_fresh(self, neg):
+        """fresh non-incremental z3 solver, then the z3-new / cvc5 CLIs"""
+        t0 = time.time()
+        s = z3.Solver()
+        s.set("timeout", max(2000, self.timeout_ms // 2))
+        for a in self.solver.assertions():
+            s.add(a)
+        s.add(neg)
+        r = s.check()
+        m = s.model() if r == z3.sat else None
+        self.solver_time += time.time() - t0
+        self.nchecks += 1
+        if r != z3.unknown:
+            self.backend_used["z3-fresh"] = self.backend_used.get("z3-fresh", 0) + 1
+            return r, m
+        r2 = _cli_portfolio(s.to_smt2(), self.timeout_ms)
+        self.solver_time += time.time() - t0
+        if r2 == "unsat":
+            self.backend_used["cli"] = self.backend_used.get("cli", 0) + 1
+            return z3.unsat, None
+        return z3.unknown, None
 
     def _next(self):
         i = len(self.trace)
@@ -486,8 +583,11 @@ class Ctx:
             return False
         d = self._next()
         if d is None:
+            # feasibility is an optimisation only: `unknown` counts as feasible
+            self.solver.set("timeout", min(self.timeout_ms, 1000))
             rt, _ = self._check(cond)
             rf, _ = self._check(z3.Not(cond))
+            self.solver.set("timeout", self.timeout_ms)
             can_t, can_f = rt != z3.unsat, rf != z3.unsat
             if can_t and can_f:
                 self.alts.append(self.trace + [0])
@@ -543,7 +643,9 @@ class Ctx:
             return
         t = liftb(cond)
         self.solver.add(t)
+        self.solver.set("timeout", min(self.timeout_ms, 1000))
         r, _ = self._check()
+        self.solver.set("timeout", self.timeout_ms)
         if r == z3.unsat:
             raise PathInfeasible()
 
@@ -555,7 +657,9 @@ class Ctx:
             ob = Obligation(label, "discharged", 0.0, None, detail, tr)
         else:
             neg = z3.BoolVal(True) if cond is False else z3.Not(liftb(cond))
-            r, m = self._check(neg)
+            r, m = self._check_quick(neg)
+            if r == z3.unknown:
+                r, m = self._check_fresh(neg)
             if r == z3.unsat:
                 ob = Obligation(label, "discharged", time.time() - t0, None, detail, tr)
             elif r == z3.sat:
@@ -589,6 +693,34 @@ class Ctx:
     def feasible(self):
         r, _ = self._check()
         return r != z3.unsat
+
+
+def _cli_portfolio(smt2, timeout_ms):
+    """Second opinion on an `unknown`: z3 5.x CLI and cvc5 on the same query.
+    Only `unsat` is used (a `sat` from here carries no model we can replay)."""
+    import subprocess, tempfile, os, shutil
+    d = tempfile.mkdtemp(prefix="pyvc_q_", dir="/var/tmp")
+    try:
+        p = os.path.join(d, "q.smt2")
+        with open(p, "w") as f:
+            f.write("(set-logic ALL)\n" + smt2 + "\n")
+        secs = max(2, timeout_ms // 1000)
+        for cmd in (["z3-new", f"-T:{secs}", p],
+                    ["cvc5", f"--tlimit={secs * 1000}", "--nl-ext-tplanes", p]):
+            if shutil.which(cmd[0]) is None:
+                continue
+            try:
+                out = subprocess.run(cmd, capture_output=True, text=True, timeout=secs + 5).stdout
+            except Exception:
+                continue
+            first = out.strip().splitlines()[0] if out.strip() else ""
+            if first == "unsat":
+                return "unsat"
+            if first == "sat":
+                return "sat"
+        return "unknown"
+    finally:
+        shutil.rmtree(d, ignore_errors=True)
 
 
 class ConcreteCtx:
